@@ -53,8 +53,14 @@ ConfigFails(cfg) == cfg.fault \in {"missingfile", "malformed", "notypes", "empty
 \* the run as a function of its input
 RunOut(d, cfg) ==
   IF ConfigFails(cfg) THEN [exit |-> 1, files |-> <<>>, funcs |-> <<>>, warned |-> <<>>, processing |-> <<>>, package |-> ""]
-  ELSE LET acc == BuildFile(d, cfg, d.msgs, [messages |-> <<>>, warned |-> <<>>])
-           ms == IF cfg.sort THEN SortByName(acc.messages) ELSE acc.messages
+  \* Generate is called for EVERY file of the request, imported ones first, and Plugin.Messages is never reset: a selected
+  \* type declared in an imported file of the package is emitted into the file to generate as well (in front, unless sorted)
+  ELSE LET RECURSIVE All(_, _)
+           All(i, a) == IF i > Len(FileNames(d)) THEN a
+                        ELSE LET b == BuildFile(d, cfg, FileMsgs(d, i), a)
+                             IN All(i + 1, [b EXCEPT !.messages = IF cfg.sort THEN SortByName(@) ELSE @])
+           acc == All(1, [messages |-> <<>>, warned |-> <<>>])
+           ms == acc.messages
            roots == [i \in DOMAIN ms |-> ms[i].name]
        IN [exit |-> 0, files |-> <<d.pkg \o "_terraform.go">>, funcs |-> FuncOrder(roots), warned |-> acc.warned,
            processing |-> FileNames(d), package |-> TargetPackage(d, cfg)]
